@@ -44,8 +44,8 @@ theorem force_inv {ra : Ra} (g : GInfo) (hra : RaInv ra) (hv : g.vb.isSome = fal
     RaInv { ra with gi := { g with sealed := true } } :=
   ⟨by rw [vb_sealed]; exact isSome_false_none hv, fun _ => rfl, hra.closed, hra.opened⟩
 
-theorem plan_inv {ra : Ra} (alloc : Int) (pl : Option Nat) (hra : RaInv ra) :
-    RaInv { ra with gi := { ra.gi with sealed := true }, preLaunch := pl, plan := some (alloc, false) } := by
+theorem plan_inv {ra : Ra} (alloc : Int) (pl : Option Nat) (te : Bool) (ps : Option Nat) (pd : Nat) (hra : RaInv ra) :
+    RaInv { ra with gi := { ra.gi with sealed := true }, preLaunch := pl, plan := some (alloc, false), te := te, pstart := ps, pdur := pd } := by
   refine ⟨by rw [vb_sealed]; exact hra.wf, fun _ => rfl, ?_, hra.opened⟩
   intro ht
   obtain ⟨a, b, c, _⟩ := hra.closed ht
@@ -53,6 +53,11 @@ theorem plan_inv {ra : Ra} (alloc : Int) (pl : Option Nat) (hra : RaInv ra) :
   intro a' st' he
   simp only [Option.some.injEq, Prod.mk.injEq] at he
   exact he.2.symm
+
+/-- `EnableTrading` touches the plan's trading flag / start time and the pre-launch time only -/
+theorem enable_inv {ra : Ra} (pl ps : Option Nat) (hra : RaInv ra) :
+    RaInv { ra with te := true, pstart := ps, preLaunch := pl } :=
+  ⟨hra.wf, hra.sealedI, hra.closed, hra.opened⟩
 
 theorem seq_inv {ra : Ra} (hra : RaInv ra) : RaInv { ra with launched := true, gi := { ra.gi with sealed := true } } :=
   ⟨by rw [vb_sealed]; exact hra.wf, fun _ => rfl, hra.closed, hra.opened⟩
@@ -104,13 +109,28 @@ theorem stepForce_inv (s : St) (r : Nat) (gov : Bool) (g : GInfo) (h : AllRa RaI
     | (rename_i ra hg _ _
        exact h.setRa (force_inv _ (h.get hg) (by simp_all)))
 
-theorem stepPlan_inv (s : St) (r : Nat) (owner : Bool) (alloc : Int) (dur : Nat) (h : AllRa RaInv s) : AllRa RaInv (stepPlan s r owner alloc dur).1 := by
+theorem stepPlan_inv (s : St) (r : Nat) (owner : Bool) (alloc : Int) (dur : Nat) (te : Bool) (h : AllRa RaInv s) :
+    AllRa RaInv (stepPlan s r owner alloc dur te).1 := by
   unfold stepPlan
-  repeat' split
-  all_goals first
-    | exact h
-    | (rename_i ra hg _ _ _ _ _ _ _ _ _
-       exact h.setRa (plan_inv _ _ (h.get hg)))
+  cases hg : getRa s r with
+  | none => exact h
+  | some ra =>
+    simp only
+    repeat' split
+    all_goals first
+      | exact h
+      | exact h.setRa (plan_inv _ _ _ _ _ (h.get hg))
+
+theorem stepEnable_inv (s : St) (r : Nat) (owner : Bool) (h : AllRa RaInv s) : AllRa RaInv (stepEnable s r owner).1 := by
+  unfold stepEnable
+  cases hg : getRa s r with
+  | none => exact h
+  | some ra =>
+    simp only
+    repeat' split
+    all_goals first
+      | exact h
+      | exact h.setRa (enable_inv _ _ (h.get hg))
 
 theorem stepSeq_inv (s : St) (r : Nat) (h : AllRa RaInv s) : AllRa RaInv (stepSeq s r).1 := by
   unfold stepSeq
@@ -150,7 +170,8 @@ theorem step_inv (s : St) (op : Op) (h : AllRa RaInv s) (hp : PhOk op) : AllRa R
   | create r g => exact stepCreate_inv s r g h
   | setgi r owner g => exact stepSetgi_inv s r owner g h
   | force r gov g => exact stepForce_inv s r gov g h
-  | plan r owner alloc dur => exact stepPlan_inv s r owner alloc dur h
+  | plan r owner alloc dur te => exact stepPlan_inv s r owner alloc dur te h
+  | enable r owner => exact stepEnable_inv s r owner h
   | tick dt => exact h.of_ras rfl
   | seq r => exact stepSeq_inv s r h
   | link r => exact stepLink_inv s r h
